@@ -184,6 +184,8 @@ class Evaluator(Interp):
                 c = self.w.get_class(cq)
                 if c is not None and attr in c.class_attrs:
                     return self.eval(c.class_attrs[attr], Frame(c.module, pure=fr.pure))
+                if c is not None and attr in c.nested:
+                    return VClass(c.nested[attr])
             raise Unsupported(f"class attribute {ci.qname}.{attr}")
         if isinstance(base, VBuiltin) and base.name == "superobj":
             cur_cls, selfv = base.bound
@@ -274,6 +276,8 @@ class Evaluator(Interp):
             c = self.w.get_class(cq)
             if c is not None and attr in c.class_attrs:
                 return self.eval(c.class_attrs[attr], Frame(c.module, pure=fr.pure))
+            if c is not None and attr in c.nested:
+                return VClass(c.nested[attr])
         raise Unsupported(f"attribute {cls}.{attr}")
 
     def dyn_class(self, obj: SV, attr: str, fr: Frame) -> str:
